@@ -123,6 +123,25 @@ that ignores or over-includes a field (padding, trailing bytes), `Debug` that pa
 impls that build an object violating an invariant the other methods assume, `AsRef`/`Borrow`/`Deref` exposing a different byte range than
 the accessors. The hand-written loops the tests use must behave exactly as before.""",
  ],
+ "r16": [
+"""Aim for a RESOURCE-USE or COMPLEXITY defect that turns into a failure the property speaks about: an allocation or loop bound taken
+from an untrusted or unvalidated field (`Vec::with_capacity(count)`, `vec![0; len]`, `reserve`), recursion whose depth follows the input or
+the nesting of builders, an index or cursor that stops advancing for one input shape (an iterator that never finishes), a retry loop, an
+accumulated size that overflows only for many entries, a "collect then index" that assumes at least one element. Ordinary packets must
+behave exactly as before; the failure (panic, abort, endless iteration, wrong size) must need a specific, legal-looking input or
+configuration.""",
+"""Aim for a defect that shows only for DEGENERATE / EMPTY / DEFAULT objects: a builder on which nothing (or nearly nothing) was
+configured, zero entries, zero-length text or payload, SSRC 0, count 0, an empty compound or an empty member inside a compound, a
+header-only packet, a packet that consists of header plus padding only, the minimum legal size of each type, `Default::default()` values.
+Code paths that "obviously" have at least one element (`first().unwrap()`, `len() - 1`, `last()`, division by a count, `chunks(0)`) are
+the natural place. Every non-degenerate object must behave exactly as before.""",
+"""Aim for a defect in the handling of RESERVED, IGNORED or DERIVED parts of the formats: reserved bits and bytes that must be written
+as zero and ignored when read (FIR entry trailer, the RPSI bit before the payload type, the unused bits of the last RPSI byte, SDES fill
+and terminator, the padding bytes before the padding count), fields whose value is derived from another (length field, count field,
+padding bit, PRIV prefix length) and must stay consistent with it, or values that are legal but unusual in those positions (non-zero
+reserved bits on input, a derived field at its maximum). Inputs and configurations with all reserved parts zero and typical derived
+values - which is what tests use - must behave exactly as before.""",
+ ],
 }
 
 
